@@ -26,7 +26,7 @@ META = {
     "ready": True,
     "category": "model_checking",
     "technique": "TLA+ spec of the phases of tools/compiler.py::main (CompilerCli.tla) model-checked by TLC against the declarative error count; every enumerated invocation replayed in-process through tools.compiler.main(argv) on real directory trees",
-    "text": "TLC enumerates every invocation within two changes of a plain call (path sets over good / twin / syntax-error / listener-error / non-.mo / empty / missing paths, output directory ok / missing / blocked / default, 0-3 models from good, failing and unknown classes, targets none / sympy / casadi / invalid, 0-2 -O options valid or malformed, -v flags) plus a seeded share of three-change invocations, checks that the operational phase model of main() returns the declarative count (usage errors, else parse-error files or 1 for no files, else failing models; 2 for argument errors) and that each model contributes independently; each invocation is executed through the real main(argv) and its return value / SystemExit code compared; multi-model calls are compared with their one-model calls on the real code.",
+    "text": "TLC enumerates every invocation within two changes of a plain call (path sets over good / twin / syntax-error / listener-error / non-.mo / empty / missing paths, output directory ok / missing / blocked / default, 0-3 models from good, failing and unknown classes, targets none / sympy / casadi / invalid, 0-2 -O options valid or malformed, -v flags; rich-library base calls for all three targets on which 15 model names incl. models failing with ClassNotFoundError / ModificationTargetNotFound / bare Exception / KeyError / NotImplementedError can be requested) plus, in the thorough tier, a seeded share of three-change invocations, checks that the operational phase model of main() returns the declarative count (usage errors, else parse-error files or 1 for no files, else failing models; 2 for argument errors) and that each model contributes independently; each invocation is executed through the real main(argv) and its return value / SystemExit code compared; multi-model calls are compared with their one-model calls on the real code.",
     "note": "Trusted: TLC, the scratch-tree builder and argv renderer. Not covered: duplicate or overlapping PATH arguments, -t casadi together with unparsable files (the files of PATH are never parsed there; the property does not fix the status), casadi 'cache'/'codegen' options (they write into the model directory), --version, log output.",
     "design_ref": "DESIGN.md section 3, C26",
 }
@@ -215,7 +215,7 @@ def judge(item):
 def cfgs(tier, seed):
     """(intended cfg: checked by TLC, as-built cfg: same family, prints expected and as-built status, env)"""
     if tier == "thorough":
-        return [("CompilerCli_thorough.cfg", "CompilerCli_thorough_asbuilt.cfg", {"C26_PART": seed % 8, "C26_NPARTS": 8}),
+        return [("CompilerCli_thorough.cfg", "CompilerCli_thorough_asbuilt.cfg", {"C26_PART": seed % 16, "C26_NPARTS": 16}),
                 ("CompilerCli_models3.cfg", "CompilerCli_models3_asbuilt.cfg", {"C26_PART": 0, "C26_NPARTS": 1})]
     return [("CompilerCli_intended.cfg", "CompilerCli_asbuilt.cfg", {"C26_PART": seed % 64, "C26_NPARTS": 64})]
 
@@ -329,7 +329,7 @@ def run(ctx):
     ctx.assumptions += ["PATH arguments are distinct and do not contain each other",
                         "with -t casadi no unparsable file is among the PATHs"]
     return {"exhaustive": False,
-            "explanation": "every invocation within 2 changes of the plain call is replayed; 3-change invocations by seeded share"}
+            "explanation": "every invocation within 2 changes of a base call is replayed; thorough adds a seeded share of the 3-change invocations"}
 
 
 def replay(ctx, sc):
